@@ -61,3 +61,166 @@ pub fn chained_reader_reads(chunks: Vec<Vec<u8>>, dst_lens: &[usize]) -> Vec<Vec
 
 #[allow(dead_code)]
 fn _uses(_: impl IntoReader<'static>) {}
+
+// ---------------------------------------------------------------------------------------------
+// Probes: run one real state-transition function on a state built from plain numbers and return
+// the resulting numbers, so that an external falsifier can compare them with a specification.
+
+use std::sync::{Arc, OnceLock};
+
+use fe2o3_amqp_types::{
+    performatives::{Flow, Transfer},
+    states::SessionState,
+};
+use futures_util::FutureExt;
+
+use crate::{
+    endpoint::{InputHandle, LinkFlow, OutgoingChannel, OutputHandle, Session as _},
+    link::{
+        role,
+        state::{LinkFlowState, LinkFlowStateInner},
+    },
+    session::frame::{SessionFrame, SessionFrameBody, SessionOutgoingItem},
+};
+
+fn probe_session(initial_outgoing_id: u32, next_outgoing_id: u32, remote_incoming_window: u32) -> crate::Session {
+    let mut session = crate::session::Builder::new()
+        .next_outgoing_id(initial_outgoing_id)
+        .into_session(OutgoingChannel(0), SessionState::Mapped, Arc::new(OnceLock::new()));
+    session.next_outgoing_id = next_outgoing_id;
+    session.remote_incoming_window = remote_incoming_window;
+    session
+}
+
+/// `Session::on_incoming_flow` (session-only flow): returns
+/// `(remote_incoming_window, next_incoming_id, remote_outgoing_window, next_outgoing_id)`
+pub fn session_on_incoming_flow(
+    initial_outgoing_id: u32,
+    next_outgoing_id: u32,
+    remote_incoming_window: u32,
+    flow_next_incoming_id: Option<u32>,
+    flow_incoming_window: u32,
+    flow_next_outgoing_id: u32,
+    flow_outgoing_window: u32,
+) -> Option<(u32, u32, u32, u32)> {
+    let mut session = probe_session(initial_outgoing_id, next_outgoing_id, remote_incoming_window);
+    let flow = Flow {
+        next_incoming_id: flow_next_incoming_id,
+        incoming_window: flow_incoming_window,
+        next_outgoing_id: flow_next_outgoing_id,
+        outgoing_window: flow_outgoing_window,
+        handle: None,
+        delivery_count: None,
+        link_credit: None,
+        available: None,
+        drain: false,
+        echo: false,
+        properties: None,
+    };
+    session.on_incoming_flow(flow).now_or_never()?.ok()?;
+    Some((
+        session.remote_incoming_window,
+        session.next_incoming_id,
+        session.remote_outgoing_window,
+        session.next_outgoing_id,
+    ))
+}
+
+/// `Session::on_outgoing_transfer` called `n` times with empty payloads (each transfer carries a
+/// delivery-tag iff `with_tag`): returns the delivery-id of every frame emitted (in order), then
+/// `(next_outgoing_id, remote_incoming_window, held_back)`
+pub fn session_on_outgoing_transfers(
+    next_outgoing_id: u32,
+    remote_incoming_window: u32,
+    n: usize,
+    with_tag: bool,
+) -> (Vec<Option<u32>>, u32, u32, usize) {
+    let mut session = probe_session(next_outgoing_id, next_outgoing_id, remote_incoming_window);
+    let mut ids = Vec::new();
+    for i in 0..n {
+        let transfer = Transfer {
+            handle: 0.into(),
+            delivery_id: None,
+            delivery_tag: if with_tag { Some(DeliveryTag::from(vec![i as u8])) } else { None },
+            message_format: None,
+            settled: None,
+            more: false,
+            rcv_settle_mode: None,
+            state: None,
+            resume: false,
+            aborted: false,
+            batchable: false,
+        };
+        let item = session
+            .on_outgoing_transfer(InputHandle(0), transfer, Bytes::new())
+            .ok()
+            .flatten();
+        let frames: Vec<SessionFrame> = match item {
+            Some(SessionOutgoingItem::SingleFrame(f)) => vec![f],
+            Some(SessionOutgoingItem::MultipleFrames(v)) => v,
+            None => vec![],
+        };
+        for f in frames {
+            if let SessionFrameBody::Transfer { performative, .. } = f.body {
+                ids.push(performative.delivery_id);
+            }
+        }
+    }
+    (
+        ids,
+        session.next_outgoing_id,
+        session.remote_incoming_window,
+        session.remote_incoming_window_exhausted_buffer.len(),
+    )
+}
+
+fn inner(initial_delivery_count: u32, delivery_count: u32, link_credit: u32) -> LinkFlowStateInner {
+    LinkFlowStateInner {
+        initial_delivery_count,
+        delivery_count,
+        link_credit,
+        available: 0,
+        drain: false,
+        properties: None,
+    }
+}
+
+/// `LinkFlowState<SenderMarker>::on_incoming_flow`: returns `(delivery_count, link_credit, drain,
+/// flow returned: (delivery_count, link_credit, drain))`
+#[allow(clippy::type_complexity)]
+pub fn sender_on_incoming_flow(
+    initial_delivery_count: u32,
+    delivery_count: u32,
+    link_credit: u32,
+    flow_delivery_count: Option<u32>,
+    flow_link_credit: Option<u32>,
+    drain: bool,
+    echo: bool,
+) -> (u32, u32, bool, Option<(Option<u32>, Option<u32>, bool)>) {
+    let state = LinkFlowState::<role::SenderMarker>::sender(inner(initial_delivery_count, delivery_count, link_credit));
+    let flow = LinkFlow {
+        handle: 0.into(),
+        delivery_count: flow_delivery_count,
+        link_credit: flow_link_credit,
+        available: None,
+        drain,
+        echo,
+        properties: None,
+    };
+    let ret = state.on_incoming_flow(flow, OutputHandle(0));
+    let guard = state.lock.read();
+    (
+        guard.delivery_count,
+        guard.link_credit,
+        guard.drain,
+        ret.map(|f| (f.delivery_count, f.link_credit, f.drain)),
+    )
+}
+
+/// `LinkFlowState<ReceiverMarker>::consume`: `Ok((delivery_count, link_credit))` or `Err(())`
+pub fn receiver_consume(delivery_count: u32, link_credit: u32, count: u32) -> Result<(u32, u32), ()> {
+    let state = LinkFlowState::<role::ReceiverMarker>::receiver(inner(0, delivery_count, link_credit));
+    state.consume(count).map_err(|_| ())?;
+    let guard = state.lock.read();
+    Ok((guard.delivery_count, guard.link_credit))
+}
